@@ -302,8 +302,14 @@ class EphysAlfCreator(object):
             return
         glob_patterns = ['channels.*', 'clusters.*', 'spikes.*', 'templates.*']
         for pattern in glob_patterns:
-            for f in self.out_path.glob(pattern):
-                f.rename(f.with_suffix(f'.{self.label}{f.suffix}'))
+            files = sorted(self.out_path.glob(pattern))
+            labelled = {f: f.with_suffix(f'.{self.label}{f.suffix}') for f in files}
+            for f in files:
+                # A file that is the labelled name of another file was left by a previous export
+                # with the same label: it is replaced, not labelled a second time.
+                if f in labelled.values():
+                    continue
+                f.replace(labelled[f])
 
     def compress_spikes_dtypes(self):
         """Convert clusters and templates to int16."""
